@@ -275,6 +275,7 @@ def run(ctx):
     tasks += [(shard_identity, (ctx.shard_seed(10 + i), ctx.n(4000, 80000))) for i in range(24)]
     tasks += [(shard_twin, (ctx.shard_seed(100 + i), ctx.n(1500, 30000))) for i in range(8)]
     tasks += [(e1prop.shard, ('vf.props.c05:PLAN_PASS', ctx.shard_seed(200 + i), ctx.n(250, 5000))) for i in range(8)]
+    tasks += e1prop.history_tasks(ctx, 'vf.props.c05:PLAN_PASS')        # histories on one instance (incl. the same word in ARM and then in Thumb state under an IT condition)
     ctx.pmap(_dispatch, tasks)
     ctx.acc.exhaustive = True
     ctx.acc.extra['exhaustive_part'] = 'condition table 15 x 16 x 5 forms x 2 configs'
